@@ -22,6 +22,7 @@ import (
 	"verif/harness/c10"
 	"verif/harness/c08dhcp"
 	"verif/harness/c08dns"
+	"verif/harness/c08hnd"
 	"verif/harness/c08ndp"
 	"verif/harness/c03dhcp"
 	"verif/harness/c03dns"
@@ -77,10 +78,11 @@ var runners = map[string]core.Runner{
 	"C17": c17.Runner,
 	"C08dns": c08dns.Runner,
 	"C08dhcp": c08dhcp.Runner,
+	"C08hnd": c08hnd.Runner,
 }
 
 func main() {
-	c08.Sub = []core.Runner{c08dns.Runner, c08ndp.Runner, c03dhcp.Runner, c08dhcp.Runner, c13.FrameRunner, c14.FrameRunner}
+	c08.Sub = []core.Runner{c08dns.Runner, c08ndp.Runner, c03dhcp.Runner, c08dhcp.Runner, c13.FrameRunner, c14.FrameRunner, c08hnd.Runner}
 	prop := flag.String("prop", "", "property id")
 	seed := flag.Int64("seed", 1, "PRNG seed")
 	tier := flag.String("tier", "quick", "quick|thorough")
